@@ -29,6 +29,11 @@ def main():
     t0 = time.time()
     pm = importlib.import_module("vf.props." + prop.lower())
     plan = pm.plan(tier)
+    only = os.environ.get("VF_ONLY")  # testing aid (seeded changes): run only the conditions whose label matches; never used by MANIFEST commands
+    if only:
+        import re
+        plan["conds"] = [c for c in plan["conds"] if re.search(only, c.name)]
+        plan["min_classes"] = 0
     print(f"[{prop}] tier={tier} conditions={len(plan['conds'])} jobs={driver.NCPU}")
     results = driver.run_all(prop, plan["conds"])
     wall = time.time() - t0
